@@ -688,3 +688,10 @@ impl TimeSource for StdSystemTime {
         SystemTime::now()
     }
 }
+
+#[cfg(feature = "__verif-hooks")]
+#[allow(missing_docs, unreachable_pub, dead_code, unused_imports, unused_qualifications)]
+pub mod verif {
+    use super::*;
+    include!(concat!(env!("QUINN_VERIF_HOOKS"), "/proto/config/mod.rs"));
+}
